@@ -1,5 +1,6 @@
 (* Extraction of the syntax-layer model (lexer, escape, quoting, ...) -- ExtrOcamlBasic only. *)
 From OV Require Import Base.Strs Syn.Escape Syn.Quote Syn.Ast Syn.Emitter Lex.Lexer Syn.Parser Syn.Wf Syn.StrictProfile Rt.TokRound Rt.TokRoundEx Rt.LexLink Rt.StrictEmit Rt.TokRound2 Rt.TokRound2Ex Rt.LexLink2Text.
+From OV Require Rt.BareWordParse Rt.BareWord.
 Require Import ExtrOcamlBasic.
 
 Definition cls_of (tbl : list (N * N)) (c : N) : N :=
@@ -17,14 +18,26 @@ Definition core_shape_tbl (tbl : list (N * N)) (d : doc) (lines : list (str * st
   core_shape_check (cls_of tbl) d lines.
 
 (* membership in the domains of the text-level theorems: bit0 core_doc, bit1 lex_safe_doc, bit2 strict_safe_doc,
-   bit3 core2_doc, bit4 lex_safe2_doc *)
+   bit3 core2_doc, bit4 lex_safe2_doc, bit5 lex_safe3_doc (core3_doc = core2_doc) *)
 Definition theorem_domains (d : doc) : N :=
   ((if core_doc d then 1 else 0) + (if lex_safe_doc d then 2 else 0) + (if strict_safe_doc d then 4 else 0) +
-   (if core2_doc d then 8 else 0) + (if lex_safe2_doc d then 16 else 0))%N.
+   (if core2_doc d then 8 else 0) + (if lex_safe2_doc d then 16 else 0) +
+   (if BareWord.lex_safe3_doc d then 32 else 0))%N.
 
 Definition core2_shape_tbl (tbl : list (N * N)) (d : doc) (lines : list (str * str)) : N :=
   core2_shape_check (cls_of tbl) d lines.
 
+(* executable form of the conclusion of lex_emit_core3 (0 not core3, 1 shape ok, 2 mismatch / repair, 3 lexer error) *)
+Definition core3_shape_tbl (tbl : list (N * N)) (d : doc) (lines : list (str * str)) : N :=
+  if BareWordParse.core3_doc d then
+    match tokenize (cls_of tbl) false lines with
+    | LexOk toks reps =>
+        if all2 tmatchb toks (BareWordParse.doc3_sh needs_multiline ex_idnum BareWord.qa_emit BareWord.qi_emit d
+                              ++ [(NEWLINE, None); (EOF, None)]) && is_nil reps then 1 else 2
+    | _ => 3
+    end
+  else 0.
+
 Extraction "../ocaml/gen/syn.ml" extract_anchor tokenize_tbl tkind_code escape unescape escape_opt unescape_opt escape_safe
   needs_quotes emit_str always_quote_key match_identifier match_annotation match_expression match_variable reserved_prefix scalar_class
-  emit emit_value parse_tbl doc_clauses strict_profile core_shape_tbl theorem_domains core2_shape_tbl.
+  emit emit_value parse_tbl doc_clauses strict_profile core_shape_tbl theorem_domains core2_shape_tbl core3_shape_tbl.
